@@ -10,7 +10,7 @@ from gen import chars, regions as R, grammar as G
 from vlib.core import Leg, Result, exc_failure
 
 ID = 'C14'
-RULE = ("regions: kind in {'..' with '' pairs, \"..\", `..`, $tag$..$tag$, /*..*/, --.. + line end or EOF} x body over the full character set, constrained by "
+RULE = ("long-regions: every region kind x body length in {1000 .. 70000 incl. 4096, 32768, 65536 +-1} x 5 body units x 3 contexts, enumerated. regions: kind in {'..' with '' pairs, \"..\", `..`, [..], $tag$..$tag$, /*..*/, --.. + line end or EOF} x body over the full character set, constrained by "
         "construction to lack the region's terminator (and backslash for quote-delimited kinds) x left/right context from a fixed delimiter set; oracle: "
         "tokenize(L + lexeme + R) == tokenize(L) + [(expected type, lexeme)] + tokenize(R). keywords: every single-word key of the nine dictionaries x "
         "{upper, lower, capitalised} x 7 left x 7 right contexts enumerated completely, plus drawn case masks and random non-dictionary words; oracle: exactly one "
@@ -167,6 +167,28 @@ def drawn_words(draw):
     return {'word': w, 'left': draw(st.sampled_from(KW_LEFT)), 'right': draw(st.sampled_from(KW_RIGHT))}
 
 
-LEGS = [Leg('regions', check=check_region, strategy=lambda tier: region_cases(), examples={'quick': 20000, 'thorough': 1000000}),
+LONG_SIZES = {'quick': [1000, 4095, 4096, 4097, 32767, 32768, 32769, 40000, 65535, 65536, 65537, 70000], 'thorough': [1000, 4096, 4097, 16384, 32768, 32769, 40000, 65536, 65537, 70000, 131073, 200000, 1000000]}
+
+
+def long_regions(tier):
+    """every region kind with a body of a boundary length (a region is opaque whatever its size)"""
+    for kind in KINDS:
+        for n in LONG_SIZES[tier]:
+            for unit in ['x', 'select 1; ', "it's ", '* /', 'é"`$ ']:
+                body = (unit * (n // len(unit) + 1))[:n]
+                for left, right in [('', ''), ('select ', ' from t'), ('(', ')')]:
+                    yield {'kind': kind, 'body': body, 'left': left, 'right': right, 'extra': 'tag' if kind == 'dol' else '\n' if kind == 'sl' else ''}
+
+
+def check_long(case):
+    res = check_region(case)
+    res.key = [case['kind'], len(case['body']), case['body'][:12], case['left']]
+    res.sample = {'kind': case['kind'], 'length': len(case['body']), 'unit': case['body'][:12]}
+    res.labels = ['long-region:' + case['kind']]
+    return res
+
+
+LEGS = [Leg('long-regions', check=check_long, enumerate=long_regions, exhaustive=True),
+        Leg('regions', check=check_region, strategy=lambda tier: region_cases(), examples={'quick': 20000, 'thorough': 1000000}),
         Leg('keywords', check=check_word, enumerate=enum_words, exhaustive=True),
         Leg('keyword-masks', check=check_word, strategy=lambda tier: drawn_words(), examples={'quick': 8000, 'thorough': 200000})]
